@@ -286,10 +286,25 @@ def run(ctx: Ctx, rep: Report) -> None:
                     if not isinstance(sub, ast.If):
                         continue
                     tname = hit_test(sub.test, n.target.id)
+                    raises = None
                     if tname is None:
-                        continue
+                        # the inverted form:  if <lookup> is None / not <lookup> / <oid> not in T: continue  - the hit is
+                        # what follows in the loop body
+                        t = vdefs.expand(sub.test, stop=[n.target.id] + list(tables))
+                        inv = None
+                        if isinstance(t, ast.Compare) and len(t.ops) == 1 and isinstance(t.ops[0], ast.Is) and isinstance(t.comparators[0], ast.Constant) and t.comparators[0].value is None:
+                            inv = t.left
+                        elif isinstance(t, ast.UnaryOp) and isinstance(t.op, ast.Not):
+                            inv = t.operand
+                        elif isinstance(t, ast.Compare) and len(t.ops) == 1 and isinstance(t.ops[0], ast.NotIn):
+                            inv = ast.Compare(t.left, [ast.In()], t.comparators)
+                        tname = hit_test(inv, n.target.id) if inv is not None else None
+                        if tname is None or sub not in n.body or sub.orelse or not (sub.body and isinstance(sub.body[-1], ast.Continue)):
+                            continue
+                        raises = [s for s in n.body[n.body.index(sub) + 1:] if isinstance(s, ast.Raise)]
                     tested = tname
-                    raises = [s for s in sub.body if isinstance(s, ast.Raise)]
+                    if raises is None:
+                        raises = [s for s in sub.body if isinstance(s, ast.Raise)]
                     classes = ctx.exc_classes(val, raises[0].exc) if raises else None
                     loop_ok = bool(raises) and classes is not None and all(ctx.r.is_subclass(c, snmp_error) for c in classes)
                     detail = f"raises {[c.name for c in classes] if classes is not None else 'an unresolved class'}" if raises else "the hit does not raise unconditionally"
